@@ -498,6 +498,25 @@ def real_datetime_family():
                     if x.tzinfo is None else p == x)
             check('dt/parse_isotime-inverts-isoformat', same,
                   detail=(x.isoformat(), str(p)))
+    # very large deltas with a microsecond component (exactness must not
+    # depend on a float round trip)
+    for days, us in ((365 * 3000, 1), (365 * 9000, 999999), (3000000, 7),
+                     (-365 * 3000, -1)):
+        start = datetime.datetime(5000, 1, 1) if days < 0 else \
+            datetime.datetime(2, 1, 1)
+        delta = datetime.timedelta(days=days, microseconds=us)
+        fx = F.TimeFixture(start)
+        fx.setUp()
+        try:
+            fx.advance_time_delta(delta)
+            check('dt/advance_time_delta-huge', T.utcnow() == start + delta,
+                  detail=(str(start), str(delta), str(T.utcnow())))
+            T.set_time_override(start)
+            T.advance_time_delta(delta)
+            check('dt/advance_time_delta-huge', T.utcnow() == start + delta,
+                  detail=(str(start), str(delta)))
+        finally:
+            fx.cleanUp()
     d = T.marshall_now(datetime.datetime(2015, 6, 30, 23, 59, 59))
     d['second'] = 60
     check('dt/leap-second-capped',
